@@ -70,21 +70,21 @@ ASSUMPTIONS = [
     "adaptive tolerances (atol, rtol) in {defaults (1e-8,1e-5), (1e-6,1e-3), (1e-10,1e-8), (1e-12,1e-10), (1e-6,0), (0,1e-6)} and 100x tighter "
     "re-runs; rk23 is not run below (1e-8,1e-5)",
     "lockstep comparisons use 1e3*eps relative to the magnitude of the terms of each stage formula plus the rounding of the recorded step "
-    "size (largest deviation seen on the unchanged tree: 13 eps-units)",
+    "size (largest deviation seen on the unchanged tree: < 10 eps-units)",
     "'error within the requested tolerances' per accepted step is judged with the 2-norm of the embedded estimate against atol + rtol*max(|y0|,|y1|) "
     "(the convention of the code); the global error is judged against K*(atol+rtol*max|y|)*(1+L*T)*sqrt(#accepted steps), K = 120 (rk23) / 40 (rk45) "
     "when every accepted step has h*L <= 0.5 and 1400 / 50 otherwise (the initial step guess is the whole first interval: on a coarse grid a step "
     "with h*L > 1 can be accepted on an accidentally small estimate; seen: 14x the resolved-step bound)",
     "error weights E are read through the controller response h_new = h*min(10, 0.9*err^(-1/(q+1))) of the code and, independently of those "
     "constants, through the accept/reject threshold err < 1 (a rejection below the threshold is reported as 'not the declared pair's estimate')",
-    "a run is declared non-terminating after 8000 right-hand-side calls (largest seen: 823) or 300 consecutive calls at one time (largest seen: 13)",
+    "a run is declared non-terminating after 8000 right-hand-side calls (largest seen: 865) or 300 consecutive calls at one time (largest seen: 13)",
 ]
 BUDGET = {"quick": {"worker_timeout": 600, "case_timeout": 60}, "thorough": {"worker_timeout": 3000, "case_timeout": 120}}
 
 METHODS = ["euler", "rk4", "rk38", "rk23", "rk45"]
 FIXED = ("euler", "rk4", "rk38")
 ADAPTIVE = ("rk23", "rk45")
-CALL_BUDGET = 8000      # right-hand-side calls per solve (largest seen on the unchanged tree: 724); more = 'does not terminate'
+CALL_BUDGET = 8000      # right-hand-side calls per solve (largest seen on the unchanged tree: 865); more = 'does not terminate'
 STUCK_CALLS = 300       # consecutive calls at exactly the same time (largest seen: 13, a zero-length step) = step size 0, 'does not terminate'
 SMALL_BUDGET = 2000      # scripted / single-step solves (largest seen: 65)
 
@@ -1001,7 +1001,6 @@ def run_tableau(desc, obs):
         for n_, a in enumerate(rp.attempts):
             if a.h != 0.0:
                 steps.append((n_, a))
-    cA = [[0.0] * s for _ in range(s)]
     if m in FIXED:
         for (i, t0_, h, ystart, calls, ynext) in steps:
             idxs = [(i * s + j) % per for j in range(s)]
@@ -1023,7 +1022,6 @@ def run_tableau(desc, obs):
                         max(abs(AA[i_][j_] - R["A"][i_][j_]) for i_ in range(s) for j_ in range(s)),
                         max(abs(a - b) for a, b in zip(bb, R["b"])))
     else:
-        pos = 1
         # walk the groups again with the basis indices of the script: attempt n used calls 1+n*s .. n*s+s, K0 = previous FSAL call
         for n_, a in steps:
             first = 1 + n_ * s
@@ -1266,7 +1264,7 @@ def _errors(fam, pts, ytf):
 
 
 # observed-order margins: smallest local order seen on the unchanged tree over 2000 draws per family: p+1-0.10 (rk23, rk4, rk38),
-# p+1-0.01 (euler), p+1-0.74 (rk45: Dormand-Prince minimises the principal error term, so the next term shows at usable step sizes)
+# p+1-0.01 (euler), p+1-0.53 (rk45: Dormand-Prince minimises the principal error term, so the next term shows at usable step sizes)
 ORDER_MARGIN = {"euler": 0.3, "rk4": 0.4, "rk38": 0.4, "rk23": 0.4, "rk45": 1.0}
 GLOBAL_ORDER_MARGIN = 1.2
 
@@ -1320,13 +1318,13 @@ def run_order(desc, obs):
 
 
 # Calibration (unchanged tree, VERIF_SEED 0..3 thorough, 8400 adaptive / 5000 fixed-step accuracy cases): largest
-# err / ((atol+rtol*|y|)(1+LT)sqrt(steps)) seen = 1.14 (rk23) / 0.39 (rk45) when every accepted step has h*L <= 0.5, and 13.9 / 0.48
+# err / ((atol+rtol*|y|)(1+LT)sqrt(steps)) seen = 1.16 (rk23) / 0.39 (rk45) when every accepted step has h*L <= 0.5, and 13.9 / 0.48
 # when a coarser step was accepted (the initial step guess is the whole first interval: on a coarse grid the embedded estimate of
-# such a step can be accidentally small); largest err / (|y| (L h)^p LT e^LT) = 0.31 (euler) / 0.005 (rk4) / 0.0043 (rk38).
+# such a step can be accidentally small); largest err / (|y| (L h)^p LT e^LT) = 0.37 (euler) / 0.0062 (rk4) / 0.0057 (rk38).
 K_ACC = {"rk23": 120.0, "rk45": 40.0}
 K_ACC_COARSE = {"rk23": 1400.0, "rk45": 50.0}
 HL_RESOLVED = 0.5
-K_FIX = {"euler": 40.0, "rk4": 0.6, "rk38": 0.6}
+K_FIX = {"euler": 40.0, "rk4": 0.7, "rk38": 0.7}
 
 
 def k_acc(m, hL):
